@@ -35,6 +35,16 @@ static std::vector<Doc> corpus(int arch) {
 	r.push_back({"obj3", V::map({{V::str("a"), V::integer(1)}, {V::str("b"), V::str("xy")}, {V::str("c"), V::boolean(true)}})});
 	r.push_back({"nested", V::map({{V::str("o"), V::map({{V::str("i"), V::integer(7)}, {V::str("s"), V::str("some text longer than the small string buffer")}})}, {V::str("l"), V::arr({V::integer(1), V::str("two"), V::arr({V::integer(3)})})}, {V::str("z"), V::integer(9)}})});
 	r.push_back({"arr", V::arr({V::integer(1), V::integer(-2), V::str("s")})});
+	// multi-byte scalars and 16-bit length fields slid across every alignment of the stream reader's refill boundary
+	// (16 bytes in the c16 variant, 256 bytes otherwise): a read that ends inside such a field must still surface
+	if (arch == tl::MsgPack) {
+		// [padding string of k bytes, scalars..., X]: X is the last value, so that a read that wrongly succeeds inside it makes the whole load succeed
+		static const std::pair<const char*, Val> last[] = {{"u32", V::integer(70000)}, {"i64", V::integer(-(1ll << 40))}, {"f64", V::dbl(1.5)}, {"u64", V::integer(1ll << 33)}};
+		for (auto& x : last) for (size_t k = 0; k < 32; ++k) {
+			size_t pad = k < 16 ? k : 236 + (k - 16);
+			r.push_back({std::string("wide_") + x.first + "_pad" + std::to_string(pad), V::arr({V::str(std::string(pad, 'p')), V::integer(300), V::dbl(2.5), x.second})});
+		}
+	}
 	return r;
 }
 
